@@ -455,6 +455,25 @@ class Weaver:
             fired("R4:panic", npanic)
         w.counts["panic_sites"] = npanic
 
+        # R7 (generic form): `repeat(X).take(Y).collect()` -> `verif_repeat_take_collect_g(X, Y)` wherever a unit-local rewrite
+        # did not already replace it (e.g. after a harmless refactoring that renamed the arguments)
+        for h in _find_seq(toks, bo, bc, ["repeat", "("]):
+            if any(s0 <= h <= e0 for s0, (e0, _, _, _) in replace.items()):
+                continue
+            c1 = pairs[h + 1]
+            if [t.text for t in toks[c1 + 1:c1 + 4]] != [".", "take", "("]:
+                continue
+            c2 = pairs[c1 + 3]
+            if [t.text for t in toks[c2 + 1:c2 + 5]] != [".", "collect", "(", ")"]:
+                continue
+            x = self._render_tokens(h + 2, c1 - 1, subst, fired, unit, ctx)
+            y = self._render_tokens(c1 + 4, c2 - 1, subst, fired, unit, ctx)
+            s_ = h
+            while s_ - 2 >= bo and toks[s_ - 1].text == "::" and toks[s_ - 2].kind == "id":
+                s_ -= 2
+            replace[s_] = (c2 + 4, "verif_repeat_take_collect_g(%s, %s)" % (x.strip(), y.strip()), "src", None)
+            fired("R7:repeat-take-collect")
+
         # R3 size_of
         for h in _find_seq(toks, bo, bc, ["size_of", "::", "<"]):
             gc = _angle_close(toks, h + 2)
